@@ -9,6 +9,7 @@ import BridgeVerif.Driver.Msg
 import BridgeVerif.Driver.Session
 import BridgeVerif.Driver.Json
 import BridgeVerif.Driver.Pbn
+import BridgeVerif.Driver.Admission
 /-! The line-protocol driver: one op per line in, one canonical line out. -/
 namespace Bridge.Driver
 
@@ -55,6 +56,8 @@ def step (s : DState) (line : String) : DState × String :=
       ({ s with pbn := a }, o)
     else if op.startsWith "M." || op.startsWith "F." then
       (s, (msgOps t).getD "bad-op")
+    else if op.startsWith "G." then
+      (s, (admissionOps t).getD "bad-op")
     else if op.startsWith "H." then
       (s, (handsOps t).getD "bad-op")
     else if op.startsWith "N." then
